@@ -185,10 +185,13 @@ def _samedoc(ck, p, byk):
         if f is None:
             continue
         pv = Prov(f)
-        d = one(f, lambda t: inst_of(t).endswith("document::{impl}::new_from_vec"))
-        if d is None:
-            ck.refuted(rule, name + ":document", f.span, "expected exactly one Document::new_from_vec")
+        ctors = [(bi, t) for bi, t in f.calls() if re.search(r"document::\{impl\}::new\w*$", norm(inst_of(t)))]
+        with_dict = [(bi, t) for bi, t in ctors if last(norm(inst_of(t))) in ("new", "new_from_vec") and len(t["args"]) == 3]
+        if len(ctors) != 1 or len(with_dict) != 1:
+            what = sorted(last(norm(inst_of(t))) for _, t in ctors)
+            ck.refuted(rule, name + ":document", f.span, "the Document must be built by one constructor that takes the dictionary explicitly (Document::new / new_from_vec); found %s - a curated-only constructor parses against another dictionary than Linter::lint does, so word metadata (and with it the ignore hash) differs for user words" % what)
             continue
+        d = with_dict[0]
         dt = d[1]
         pr = [o for o in arg_roots(f, pv, dt["args"][1]) if o[0] == "call" and last(norm(o[3] or "")) == "create_parser"]
         parser_ok = False
